@@ -19,7 +19,9 @@ vars == <<hist, nt, open, done>>
 
 TickCharArgs == {<<>>, <<1>>, <<1, 2>>, <<1, 2, 3>>} \cup (IF Level >= 2 THEN {<<6>>, <<4>>, <<5, 5>>} ELSE {})
 TickStringArgs == {<<>>, << <<1>> >>, << <<1>>, <<2>> >>, << <<1>>, <<2>>, <<3>> >>}
-                  \cup (IF Level >= 2 THEN {<< <<>>, <<>> >>, << <<1, 2>> >>, << <<4>>, <<1>> >>} ELSE {})
+                  \cup (IF Level >= 2 THEN {<< <<>>, <<>> >>, << <<1, 2>> >>, << <<4>>, <<1>> >>,
+                                             << <<1>>, <<2>>, <<4>> >>, << <<1>>, <<2>>, <<1, 2, 3>> >>}      \* the final tick string is wider than every animation frame
+                        ELSE {})
 ProgressArgs == {<<>>, <<1>>, <<1, 3>>, <<1, 2, 3>>, <<1, 4>>, <<5, 5>>,
                  <<1, 2, 4>>, <<1, 2, 4, 7>>, <<4, 7, 1>>}        \* unequal widths that fall between pairs / in an odd remainder
                 \cup (IF Level >= 2 THEN {<<1, 2, 2, 3>>, <<4, 7>>, <<4, 7, 4>>, <<4, 1, 1>>, <<5, 5, 5>>, <<5, 1>>, <<6, 1>>, <<6>>, <<1, 2, 3, 4>>} ELSE {})
@@ -45,7 +47,9 @@ BarScript(w, len, n, steady) ==
 TickStrScript(n) ==
     [j \in 1..7 |-> [op |-> "tickstr", idx |-> <<Small(0), Small(1), Small(IF n >= 2 THEN n - 2 ELSE 0), Small(IF n >= 1 THEN n - 1 ELSE 0), Small(n), P32, MaxU64>>[j]]]
     \o <<[op |-> "finalstr"]>>
-Script(n) == BarScript(1, -1, n, FALSE) \o BarScript(10, 2, n, TRUE) \o BarScript(1, 2, n, FALSE) \o BarScript(10, -1, n, FALSE) \o TickStrScript(n)
+(* a terminal far wider than any buffer of blanks: one draw, one tick, the finish *)
+WideScript == <<[op |-> "bar", w |-> 1000, len |-> 2], [op |-> "force_draw"]>> \o Ticks(1) \o <<[op |-> "finish"]>>
+Script(n) == BarScript(1, -1, n, FALSE) \o BarScript(10, 2, n, TRUE) \o BarScript(1, 2, n, FALSE) \o BarScript(10, -1, n, FALSE) \o WideScript \o TickStrScript(n)
 
 Init == hist = <<>> /\ nt = DefaultTicks /\ open = TRUE /\ done = FALSE
 Step == /\ open /\ Len(hist) < D
